@@ -80,6 +80,12 @@ Definition all_fixed : fixes :=
 Definition current_code : fixes :=
   {| fx_cti_index := true; fx_cti_block := true; fx_cti_dup := true; fx_senders := true; fx_sign_meta := true; fx_sign_len0 := true;
      fx_cur_nil := true; fx_cur3_nil := true; fx_import_rec := true; fx_taskchan := true; fx_select_neg := true;
+     fx_cur_evicted := true; fx_bindhist_hash := true |}.
+(* the code as it stood when the second group of API methods was modelled (before /repo commits 9638031 and d0557bc):
+   every earlier repair in place, GetBindingHistoryDetail and the cache look-up of the selected keystore unrepaired *)
+Definition code_before_second_group_repairs : fixes :=
+  {| fx_cti_index := true; fx_cti_block := true; fx_cti_dup := true; fx_senders := true; fx_sign_meta := true; fx_sign_len0 := true;
+     fx_cur_nil := true; fx_cur3_nil := true; fx_import_rec := true; fx_taskchan := true; fx_select_neg := true;
      fx_cur_evicted := false; fx_bindhist_hash := false |}.
 Definition as_found : fixes :=
   {| fx_cti_index := false; fx_cti_block := false; fx_cti_dup := false; fx_senders := false; fx_sign_meta := false; fx_sign_len0 := false;
